@@ -152,9 +152,12 @@ def l3(prog, rep):
         rep.check(da[1] != ia[1], "L3", f"MOVE:{st}:distinct-accounts",
                   f"{o}: debit and credit name the same operand {da[1]}", i.where())
         oe = body.outcome_edges(d)
-        rep.check(oe["kind"] == "try" and body.must_pass_edges(set(oe["ok"]), i.bb), "L3",
-                  f"MOVE:{st}:credit<=debit-ok",
-                  f"{o}: the credit is reachable without the debit having succeeded", i.where())
+        # both legs run on the transaction's delta, so their relative order is immaterial; what
+        # matters is that neither failure is swallowed and that every success path has both
+        rep.check(oe["kind"] == "try" and
+                  all(body.must_pass_edges(set(oe["ok"]), r) for r in result_blocks(body, "Ok")),
+                  "L3", f"MOVE:{st}:debit-propagated",
+                  f"{o}: success is reachable without the debit having succeeded", d.where())
         rep.check(on_all_success_paths(body, via_blocks=[i.bb]) and
                   on_all_success_paths(body, via_blocks=[d.bb]), "L3", f"MOVE:{st}:both-legs",
                   f"{o} has a success path with only one leg of the move", body.describe())
